@@ -306,8 +306,129 @@ func (st *semState) cli(p string, mode string) (fqrun.Result, bool) {
 	}
 }
 
+// slurpSafe: `P | slurp("v")` means `(P) | slurp("v")` - true when the right spine of P's
+// pipe chain has no variable binding, label or function definition (their scope would
+// extend over the appended stage).
+func slurpSafe(p string) bool {
+	q, err := gojq.Parse(p)
+	if err != nil {
+		return false
+	}
+	for q != nil {
+		if len(q.FuncDefs) > 0 || len(q.Imports) > 0 || q.Meta != nil {
+			return false
+		}
+		stage := q
+		if q.Op == gojq.OpPipe {
+			stage = q.Left
+		}
+		if stage != nil && stage.Term != nil {
+			if stage.Term.Type == gojq.TermTypeLabel {
+				return false
+			}
+			for _, sf := range stage.Term.SuffixList {
+				if sf.Bind != nil {
+					return false
+				}
+			}
+		}
+		if q.Op != gojq.OpPipe {
+			break
+		}
+		q = q.Right
+	}
+	return true
+}
+
+// checkSlurpLast: the rewrite of a pipeline that ends in one of fq's slurp functions
+// (slurp, repl, help: the last stage is cut off and fed the collected outputs). A REPL
+// session evaluates `P | slurp("c11v")` and then prints $c11v: it has to be the array of
+// P's outputs.
+// slurpStages: every kind of stage that can stand directly in front of a slurp function,
+// two and three stage pipelines over three sources (full product). Binds only bind one value
+// (their scope extends over the appended stage, which then still runs once).
+func slurpStagePrograms() []item {
+	srcs := []string{`[[1,2],[3]]`, `({a:[1,2]}, [3])`, `[null, {a:1}]`}
+	stages := []string{`.`, `.[]`, `.[]?`, `.[0]`, `.[0]?`, `.a?`, `.?`, `..`, `.[1:]`, `(.)`, `first(.[])`, `. as $x | $x`, `. as [$x] | $x`,
+		`.[]?|.`, `.|.`, `[.[]?]`, `{a:.}`, `-(length)`, `try .[] catch "E"`, `if . then .[]? else . end`, `reduce .[]? as $x (0; .+1)`, `..?`, `.[]?.a?`, `"\(.)"`, `@json`, `def f: .[]?; f`}
+	var out []item
+	for _, x := range srcs {
+		for _, a := range stages {
+			if strings.HasPrefix(a, "def ") {
+				continue
+			}
+			out = append(out, item{text: x + " | " + a, skel: "slurp-stage:" + a})
+			for _, b := range stages {
+				if strings.HasPrefix(b, "def ") {
+					continue
+				}
+				out = append(out, item{text: x + " | " + a + " | " + b, skel: "slurp-stage:" + a + " | " + b})
+			}
+		}
+	}
+	return out
+}
+
+func (st *semState) checkSlurpLast(it item, verbose bool) []viol {
+	p := it.text
+	if !strings.HasPrefix(it.skel, "slurp-stage:") && !slurpSafe(p) {
+		return nil
+	}
+	e := st.expect(p, "null")
+	if e.skip != "" || e.exit != 0 {
+		return nil
+	}
+	ctx, cancel := context.WithTimeout(context.Background(), 60*time.Second)
+	defer cancel()
+	lines := []string{p + ` | slurp("c11v")`, `$c11v | tojson`}
+	res := fqrun.Run(fqrun.Opts{Args: []string{"-n", "-i"}, Lines: lines, Files: st.files, StdinIsTerminal: true, StdoutIsTerminal: true, Ctx: ctx})
+	if st.r != nil {
+		st.r.Eval(1)
+	}
+	if ctx.Err() != nil {
+		return nil
+	}
+	if verbose {
+		fmt.Printf("  REPL lines %q: exit=%d stdout=%q stderr=%q; direct outputs=%v\n", lines, res.Exit, res.Stdout, res.Stderr, e.outs)
+	}
+	desc := fmt.Sprintf("fq -n -i, lines %q: stdout=%q stderr=%q; direct evaluation of the program gives %v", lines, trunc(string(res.Stdout), 200), trunc(string(res.Stderr), 200), e.outs)
+	sig := "slurp-last:" + skelTop(it.skel)
+	out := strings.TrimSpace(string(res.Stdout))
+	if i := strings.LastIndexByte(out, '\n'); i >= 0 {
+		out = strings.TrimSpace(out[i+1:])
+	}
+	var text string
+	if err := json.Unmarshal([]byte(out), &text); err != nil {
+		return []viol{{sig: sig + ":no-array", prog: p, what: "the slurped variable was not printed: " + desc}}
+	}
+	got, err := parseJSONStream([]byte(text))
+	if err != nil || len(got) != 1 {
+		return []viol{{sig: sig + ":no-array", prog: p, what: "the slurped variable is not one JSON value: " + desc}}
+	}
+	var sb strings.Builder
+	sb.WriteString("[")
+	for i, o := range e.outs {
+		if i > 0 {
+			sb.WriteString(",")
+		}
+		sb.WriteString(o)
+	}
+	sb.WriteString("]")
+	want, err := parseJSONStream([]byte(sb.String()))
+	if err != nil || len(want) != 1 {
+		return nil
+	}
+	if got[0] != want[0] {
+		return []viol{{sig: sig + ":outputs", prog: p, what: "the outputs collected for the slurp function differ from the program's outputs: " + desc}}
+	}
+	return nil
+}
+
 // check runs one program in one mode through both sides. sigFor builds the signature class.
 func (st *semState) check(it item, mode string, verbose bool, capture bool) []viol {
+	if mode == "slurplast" {
+		return st.checkSlurpLast(it, verbose)
+	}
 	p := it.text
 	e := st.expect(p, mode)
 	if e.skip != "" {
@@ -489,7 +610,29 @@ var semSeen = map[string]struct{}{}
 func runSemantic(r *core.Run, st *semState, levels []semLevel) bool {
 	seen := semSeen
 	for _, l := range levels {
+		if l.name == "slurp-stages" {
+			n := 0
+			for i, it := range slurpStagePrograms() {
+				if !r.Mine(int64(hashText(it.text) >> 1)) {
+					continue
+				}
+				_ = i
+				if r.Expired() {
+					r.NotExhaustive("deadline: slurp stage programs not finished")
+					return false
+				}
+				report(r, "sem", it, "slurplast", st.check(it, "slurplast", false, false))
+				r.NontrivialHash(hashText(it.text))
+				n++
+			}
+			r.Count("sem_runs_slurp_stages", int64(n))
+			sectionDone(r, "semantic:slurp-stages")
+			continue
+		}
 		if l.name == "capture-set" {
+			if os.Getenv("VERIF_ONLY") == "slurplast" {
+				continue
+			}
 			if !runCapture(r, st, l.modes) {
 				return false
 			}
@@ -505,6 +648,9 @@ func runSemantic(r *core.Run, st *semState, levels []semLevel) bool {
 				return true
 			}
 			for _, mode := range l.modes {
+				if os.Getenv("VERIF_ONLY") == "slurplast" && mode != "slurplast" {
+					continue
+				}
 				key := mode + "\x00" + it.text
 				if _, ok := seen[key]; ok {
 					continue
